@@ -21,6 +21,16 @@ func TestSeedTwoEntries(t *testing.T) {
 	}
 }
 
+func TestSeedFigure8(t *testing.T) {
+	c := Config{NumServers: 3, NumClients: 2, MaxTerm: 7, MaxCommitIndex: 4, FIFO: true, Budgeted: true,
+		Requests: [][]Req{{{Type: "put", Key: "k", Value: "x"}}, {{Type: "put", Key: "k", Value: "y"}}}}
+	sys, err := Build(c, "figure8", nil)
+	if err != nil {
+		t.Fatal(err)
+	}
+	t.Logf("prefix %d steps; state %s term %s commitIndex %s; logs %s", len(sys.Prefix), ss.Canon(sys.Init.Globals["state"]), ss.Canon(sys.Init.Globals["currentTerm"]), ss.Canon(sys.Init.Globals["commitIndex"]), ss.Canon(sys.Init.Globals["log"]))
+}
+
 func TestSeeds(t *testing.T) {
 	put := [][]Req{{{Type: "put", Key: "k", Value: "v"}}}
 	for _, n := range []int{1, 2, 3} {
